@@ -24,6 +24,7 @@ TIMES = 'history/times.py'; HFILES = 'history/files.py'; TNETS = 'server/tnetstr
 POLL = 'server/enip/poll.py'; DEFAULTS = 'server/enip/defaults.py'; NETWORK = 'server/network.py'
 
 VARIANTS = [
+    V( 'each-member-reply-into-a-copy', DEVICE, "r.input = bytearray( Object.produce( r ))\n data.status = 0x00", "r	= dotdict( r, input=bytearray( Object.produce( r )))\n                data.status	= 0x00", fires=[ 'P-EACH' ] ),
     # ---- repairs BY BZ CA CB ( round 8 )
     V( 'once-rerun-not-barred', DEVICE, 'assert not entered, "request failed in its target Object"\n answerer.request( req, addr=addr )', "answerer.request( req, addr=addr )", fires=[ 'P-ONCE' ] ),
     V( 'once-flag-set-after-dispatch', DEVICE, "entered = True\n target.request( data.request, addr=addr )", "target.request( data.request, addr=addr )\n            entered		= True", fires=[ 'P-ONCE' ] ),
